@@ -565,6 +565,64 @@ pub fn spaces(tier: Tier) -> Vec<Space> {
             check_script_bytes(&bytes, acc, case, &desc);
         }));
     }
+    // (e5) every opcode byte at every position of every conditional skeleton of up to 3 (4) symbols, the condition values
+    // supplied by a prefix of pushes (true / false)
+    {
+        let holes = super::skeleton_holes(if thorough { 4 } else { 3 });
+        let nh = holes.len() as u64;
+        v.push(Space::new("opcode-in-skeleton", nh * 256 * 2, move |case, acc| {
+            let c = coords(case.idx, &[nh, 256, 2]);
+            let (pre, post) = &holes[c[0] as usize];
+            let cond: &[u8] = if c[2] == 0 { &[0x51, 0x51, 0x51, 0x51] } else { &[0x00, 0x51, 0x00, 0x51] };
+            let bytes: Vec<u8> = [cond, pre.as_slice(), super::hole_fill(c[1] as u8).as_slice(), post.as_slice()].concat();
+            let desc = || json!({"space": "opcode-in-skeleton"});
+            check_script_bytes(&bytes, acc, case, &desc);
+        }));
+    }
+    // (e6) transaction mode with unlocking scripts that are programs, not only pushes: every unlocking string of up to 3 symbols
+    // and every locking string of up to 2 symbols over {OP_1, OP_5, TOALTSTACK, FROMALTSTACK, DUP, DROP, ADD}
+    {
+        let syms: Vec<u8> = vec![0x51, 0x55, 0x6b, 0x6c, 0x76, 0x75, 0x93];
+        let ns = syms.len() as u64;
+        let strings = |maxk: u32| -> Vec<Vec<u8>> {
+            let mut out: Vec<Vec<u8>> = vec![vec![]];
+            let mut frontier: Vec<Vec<u8>> = vec![vec![]];
+            for _ in 0..maxk {
+                let mut next = vec![];
+                for f in &frontier {
+                    for s in &syms {
+                        let mut g = f.clone();
+                        g.push(*s);
+                        next.push(g);
+                    }
+                }
+                out.extend(next.iter().cloned());
+                frontier = next;
+            }
+            out
+        };
+        let _ = ns;
+        let us = strings(3);
+        let ls = strings(2);
+        let (nu, nl) = (us.len() as u64, ls.len() as u64);
+        v.push(Space::new("from-transaction-programs", nu * nl, move |case, acc| {
+            let c = coords(case.idx, &[nu, nl]);
+            let (u, l) = (us[c[0] as usize].clone(), ls[c[1] as usize].clone());
+            let mk = || -> Result<Interpreter, String> {
+                let mut tx = Transaction::new(1, 0);
+                let mut txin = TxIn::new(&[3u8; 32], 1, &Script::from_bytes(&u).map_err(|e| e.to_string())?, Some(5));
+                txin.set_satoshis(1000);
+                txin.set_locking_script(&Script::from_bytes(&l).map_err(|e| e.to_string())?);
+                tx.add_input(&txin);
+                tx.add_output(&TxOut::new(1, &Script::from_bytes(&[0x51]).unwrap()));
+                Interpreter::from_transaction(&tx, 0).map_err(|e| e.to_string())
+            };
+            for f in check_total(&mk, acc) {
+                let input = json!({"unlocking_hex": hex::encode(&u), "locking_hex": hex::encode(&l)});
+                acc.violate(f.key, case.idx, case.json(input), f.detail);
+            }
+        }));
+    }
     // (f) size/count operands that can make an implementation allocate or spin: child processes with an allocation budget
     {
         let vals = vals.clone();
